@@ -211,6 +211,7 @@ func (e *specEnv) object(obj types.Object) sval {
 		// package-level variable: load from its global cell
 		if sp := c.eng.prog.Package(o.Pkg()); sp != nil {
 			if g, ok := sp.Members[o.Name()].(*ssa.Global); ok {
+				c.seeGlobal(g)
 				ref := num(c.eng.globalRef(g))
 				v := c.load(e.st.heap, locOfRef(ref, o.Type()))
 				return sval{v, o.Type(), ""}
